@@ -1070,6 +1070,71 @@ def r14i(ctx):
                        f"element whose name is no longer that string")
 
 
+def r14j(ctx):
+    """What a setter saves across clear() it writes back, whatever the name looks like.
+
+    The value setters of the typed fields (VarSet, UserFieldDecl) empty the element with clear(), which also removes its attributes, and then
+    restore the identifying ones they saved first — `text:name` above all: it is the name every lookup matches.  The save goes through the
+    generic getter, which turns the names "true" and "false" into booleans; handing that value straight back to set_attribute writes the same
+    text again.  A truth test in between (`if name:`) drops the name "false" (and an empty one): after the next set_value the element is
+    still in the document and no lookup finds it.  Rule: every attribute a method reads into a local before calling self.clear() is written
+    back after it under the same qualified name, on every path, under no condition other than `<local> is not None`.
+    """
+    from ..paths import cfg_of, node_of
+    repo = ctx.repo
+    ctx.rule("R14j", "an attribute saved across self.clear() is restored on every path, conditional at most on `is not None`", floor=3)
+    n = 0
+    for f in repo.all_funcs():
+        clears = [c for c in walk_no_nested(f.node) if isinstance(c, ast.Call) and call_name(c) == "clear" and isinstance(c.func, ast.Attribute)
+                  and isinstance(c.func.value, ast.Name) and c.func.value.id == "self"]
+        if not clears:
+            continue
+        first = min(clears, key=lambda c: c.lineno)
+        saved = [a for a in walk_no_nested(f.node) if isinstance(a, ast.Assign) and len(a.targets) == 1 and isinstance(a.targets[0], ast.Name)
+                 and isinstance(a.value, ast.Call) and call_name(a.value).startswith("get_attribute") and isinstance(a.value.func, ast.Attribute)
+                 and isinstance(a.value.func.value, ast.Name) and a.value.func.value.id == "self" and a.value.args and a.lineno < first.lineno]
+        if not saved:
+            continue
+        cfg = cfg_of(f)
+        for a in saved:
+            n += 1
+            var = a.targets[0].id
+            qn = repo.fold(a.value.args[0], f.module)
+            backs = [c for c in walk_no_nested(f.node) if isinstance(c, ast.Call) and call_name(c).startswith("set_") and len(c.args) == 2 and repo.fold(c.args[0], f.module) == qn
+                     and isinstance(c.args[1], ast.Name) and c.args[1].id == var and c.lineno > first.lineno]
+            why = None
+            if not backs:
+                why = "it is never written back"
+            else:
+                for b in backs:
+                    for t, pol in structural_guards_(b, f.node):
+                        strict = isinstance(t, ast.Compare) and len(t.ops) == 1 and isinstance(t.ops[0], (ast.Is, ast.IsNot)) and isinstance(t.left, ast.Name) \
+                            and t.left.id == var and isinstance(t.comparators[0], ast.Constant) and t.comparators[0].value is None
+                        if not strict:
+                            why = f"it is written back only under `{norm(t, 30)}`"
+                if why is None:
+                    # some write-back lies on every path from the clear to the exit — or is skipped only when the saved value is None
+                    bn = [node_of(cfg, b) for b in backs]
+                    cn = node_of(cfg, first)
+                    path = cfg.path_avoiding(cn, cfg.exit, [x for x in bn if x is not None], follow_exc=False)
+                    if path is not None:
+                        tests = [x.stmt for x in path if x.kind == "test" and x.stmt is not None]
+                        if not any(any(isinstance(y, ast.Name) and y.id == var for y in ast.walk(getattr(t, "test", t))) for t in tests):
+                            why = "a path from clear() to the return skips the write-back"
+            ctx.instance("R14j", f"{f.file}:{f.ident}", f"{qn} saved in a local across clear(): restored", ok=why is None, nontrivial=True, line=a.lineno)
+            if why:
+                ctx.report("R14j", f, backs[0] if backs else a, f"{qn}: {why}",
+                           f"{f.ident} saves `{qn}` before self.clear() and {why}: clear() has removed the attribute, so for a name that tests false (the getter decodes \"false\" to "
+                           f"False; an empty name) the element loses it and no lookup by that name finds it any more")
+    if n < 3:
+        raise AnalysisError(f"R14j: only {n} attribute(s) saved across clear() found")
+
+
+def structural_guards_(node, stop):
+    from ..paths import structural_guards
+    return structural_guards(node, stop=stop)
+
+
 def run(ctx):
     r14a(ctx)
     r14c(ctx)
@@ -1080,6 +1145,7 @@ def run(ctx):
     r14g(ctx)
     r14h(ctx)
     r14i(ctx)
+    r14j(ctx)
     # a named range is found under its table name only if the address writer and reader agree on how that name is quoted (rule shared with C19)
     from .c19 import r19b, r19f
     r19b(ctx)
@@ -1092,6 +1158,12 @@ from ..selftest import Seed, unparse_seed  # noqa: E402
 _XQ = "src/odfdo/utils/xpath_query.py"
 _EL = "src/odfdo/element.py"
 SEEDS = [
+    Seed("UserFieldDecl.set_value restores the name only if it tests true", "fault", "src/odfdo/variable.py",
+         "        self.set_value_and_type(value=value)\n        self.set_attribute(\"text:name\", name)\n",
+         "        self.set_value_and_type(value=value)\n        if name:\n            self.set_attribute(\"text:name\", name)\n", "R14j"),
+    Seed("UserFieldDecl.set_value restores the name unless there was none", "neutral", "src/odfdo/variable.py",
+         "        self.set_value_and_type(value=value)\n        self.set_attribute(\"text:name\", name)\n",
+         "        self.set_value_and_type(value=value)\n        if name is not None:\n            self.set_attribute(\"text:name\", name)\n"),
     Seed("Content.get_style remembers its answers by (family, name)", "fault", "src/odfdo/content.py",
          "            if style is not None:\n                return style\n        return None",
          "            if style is not None:\n                self.__dict__.setdefault(\"_seen\", {})\n                self._seen[family, name_or_element] = style\n                return style\n        return None", "R14i"),
